@@ -178,8 +178,9 @@ def check(tier, seed):
         return None
 
     return R.finish(RULE, search=search,
-                    partial_note="tree-level statements fully proved; the database-level link (write refinement) rests on this run's "
-                                 "correspondence: impl root = troot keccak256 (T-level run) = yp_root keccak256 (mapping)")
+                    partial_note="tree-level statements and the database-level link (C02_D, C02_D_batched) are proved; nested blocks and the "
+                                 "canonical root after writes on an incomplete database rest on this run's oracle: impl root = troot keccak256 "
+                                 "(T-level run) = yp_root keccak256 (mapping), evaluated in Coq")
 
 
 def replay(payload):
